@@ -32,6 +32,7 @@ type WeightedMerkleTrie struct {
 	tempDeleted [][]byte
 	created     [][]byte // nodes written by the last commit that did not exist in storage before (removed on rollback)
 	written     [][]byte // all nodes written by the last commit
+	pending     bool     // mutated since the last commit / rollback (a root that was emptied is not dirty, so the root alone does not tell)
 	sync.Mutex
 }
 
@@ -80,6 +81,7 @@ func (t *WeightedMerkleTrie) Update(key, value []byte, weight uint64) error {
 			return err
 		}
 		t.root = n
+		t.pending = true
 	} else {
 		_, n, err := t.delete(t.root, nil, k)
 		if err != nil {
@@ -89,6 +91,7 @@ func (t *WeightedMerkleTrie) Update(key, value []byte, weight uint64) error {
 		if t.root == nil {
 			t.root = emptyNode
 		}
+		t.pending = true
 	}
 	return nil
 }
@@ -331,11 +334,12 @@ func (t *WeightedMerkleTrie) Rollback() {
 	}
 	t.tempDeleted = nil
 	clear(t.deleted)
+	t.pending = false
 }
 
 // DeleteNodes deletes the nodes from the underlying storage and sets nextDelete to the tempDeleted nodes collected in previous mutations
 func (t *WeightedMerkleTrie) DeleteNodes() error {
-	if t.root != nil && t.root.Dirty() {
+	if t.pending || (t.root != nil && t.root.Dirty()) {
 		// the nodes collected so far were superseded by mutations that are not committed yet, the last
 		// committed root still needs them: collect garbage only between a commit and the next mutation
 		return nil
@@ -428,6 +432,7 @@ func (t *WeightedMerkleTrie) Weight() uint64 {
 // Commit collapses the trie to the specified level and returns the batcher and the deleted nodes, it is the caller's responsibility to commit the batch
 func (t *WeightedMerkleTrie) Commit(collapseLevel int) (storage.Batcher, error) {
 	batcher := t.db.NewBatch()
+	t.pending = false
 	if !t.root.Dirty() {
 		return batcher, nil
 	}
@@ -502,6 +507,7 @@ func (t *WeightedMerkleTrie) RollbackTrie(node Node) {
 	t.created = nil
 	t.tempDeleted = nil // like Rollback: the nodes superseded by the rolled-back changes are live again
 	clear(t.deleted)
+	t.pending = false
 }
 
 func (t *WeightedMerkleTrie) Delete(key []byte) (uint64, error) {
@@ -517,6 +523,7 @@ func (t *WeightedMerkleTrie) Delete(key []byte) (uint64, error) {
 	if t.root == nil {
 		t.root = emptyNode
 	}
+	t.pending = true
 	return change, nil
 }
 
